@@ -6,6 +6,7 @@ func init() {
 		Trusted:     []string{"go/types constant evaluation", "recognition of the tables by resolved method objects (PLYPropertyType.Validate/Size/Parse/DecodeBinary, PLYValue*.EncodeBinary)"},
 		Assumptions: []string{"strconv round-trips the shortest representation (documented behaviour of FormatFloat with precision -1)"},
 		Exhaustive:  true,
+		Fixtures:    []string{"dec"},
 		Run:         runC15,
 		SelfTest: []Mutation{
 			{Name: "float64 text written with float32 precision", File: "fileformats/ply_value.go",
@@ -40,7 +41,10 @@ func runC15(c *Ctx) {
 	c.floor("DX.STL", 2)
 	c.runPLYCursor("DX.CURSOR")
 	c.floor("DX.CURSOR", 2)
-	s := c.decoderScope("")
+	s := c.decoderScope("dec")
 	s.ruleDAHint("DA.HINT")
 	c.floor("DA.HINT", 4)
+	s.ruleDR("DR")
+	c.floor("DR.SHORT", 1)
+	c.floor("DR.LINE", 0)
 }
